@@ -1,4 +1,4 @@
 SPECIFICATION TraceSpec
-INVARIANT I05
+INVARIANT J05
 POSTCONDITION TraceAccepted
 CHECK_DEADLOCK FALSE
